@@ -291,7 +291,7 @@ def methods(bs, acc, ctx, shard):
             params = [('bs', inspect.Parameter.POSITIONAL_ONLY, False)]
         if name == 'fromstring':
             params = [('s', inspect.Parameter.POSITIONAL_ONLY, False)]
-        two = (len(params) <= 4) if q else True
+        two = (len(params) <= 4 or name == 'pp') if q else True
         for args in calls_for(name, params, two):
             src = render_call('s' if name != 'fromstring' else f'bitstring.{cls}', name, params, args)
             if _too_big(src):
